@@ -100,9 +100,14 @@ CHECKS = {
     category="model_checking", design_ref="4 C16",
     text="TLC checks, for every antichain of cliques over 3 attributes and over 4 attributes with <= 3 (thorough 4) cliques x every legal choice of pruned parents, that the Moebius counting numbers count every attribute once, that N and D message sets are disjoint and refer to existing messages and that denominators are sent earlier in the size-ordered schedule; the real RegionGraph must reproduce regions, parent classes, counting numbers, N/D/B and a valid order. GBP.tla shows the undamped update exact on two-level running-intersection structures; FactorGraphBP.tla computes for each of 60 (thorough 400) tree factor graphs the first sweep D* from which beliefs are exact. RegionGraph(convex=False, 200 sweeps) on all RIP clique sets (plus 3-level 5-attribute ones) and FactorGraph at D*, D*+5 and 25 sweeps (per sweep through the callback) are compared with brute-force marginals at 1e-8; arbitrary clique sets x 1,2,25 sweeps x both oracle families x repeated (warm) calls x reassigned totals must give finite, non-negative tables summing to the total.",
     note="pairwise-convex needs cvxopt (absent). Multi-level RIP structures are compared numerically only. Known finding F11 listed."),
+ "C17": dict(
+    technique="TLA+ spec of the local polytope and its feasible directions (spec/approx/ConvexRG.tla; TLC verifies every certificate direction in exact integers) and trace validation (spec/approx/ConvexTrace.tla) of a primal first-order optimality certificate evaluated on the pseudo-marginals returned by real runs",
+    category="model_checking", design_ref="4 C17",
+    text="For 12 region structures (trees, single loop, dense pairs, nested, two- and three-level triples, loops of triples, cliques spelled in unsorted order with equal-size multi-attribute separators) an exact integer basis of the tangent space of the local polytope is computed by Fraction elimination; TLC checks in integer arithmetic that every basis direction has zero sum per region and that every parent direction marginalises to its child's (so an optimum can never be rejected for a bad direction), and that the basis spans the kernel. RegionGraph(convex=True, 5000 sweeps, convergence 1e-10) is run for dampings 0.1/0.5/0.9 x totals x potentials on the input cliques or on every region; the strictly concave objective makes mu the unique optimum iff it is feasible and theta - ln mu is orthogonal to every feasible direction, which ConvexTrace.tla checks at 1e-6 on the logged numbers (region normalisation, parent-child L1 agreement, stationarity per direction).",
+    note="'Run to convergence' = 5000 sweeps; dot products formed in floats by the harness (TLC verifies the directions and the thresholds); unit counting numbers only; star-family closed form not implemented."),
 }
 
-NOT_YET = "check not built yet (work in progress, see DESIGN.md section 8 build order)"
+NOT_YET = "check not built yet"
 
 def main():
     checks = []
